@@ -322,9 +322,23 @@ impl Monitor {
         } else if src.is_v4_limited_broadcast() || Self::directed_broadcast(ctx, src) {
             out.add("source", proto, "broadcast", format!("{}: source address {} is a broadcast address", what, src));
         } else if !src.is_unspecified() && !Self::own(ctx, src) {
+            // the cause names what can be seen on the wire, so that different defects of source
+            // selection keep different signatures
+            let has_v6 = ctx.own.iter().any(|(o, _)| matches!(o, Addr::V6(_)));
+            let shares_low16 = match src {
+                Addr::V6(a) => ctx.own.iter().any(|(o, _)| matches!(o, Addr::V6(b) if b[14..] == a[14..])),
+                _ => false,
+            };
             let cause = match src {
                 Addr::V4(a) if a[0] == 127 => "loopback-not-own",
-                Addr::V6(a) if a[..15] == [0; 15] && a[15] == 1 => "loopback-not-own",
+                Addr::V6(a) if a[..15] == [0; 15] && a[15] == 1 => {
+                    if has_v6 {
+                        "loopback-not-own"
+                    } else {
+                        "loopback-while-interface-has-no-ipv6-address"
+                    }
+                }
+                _ if shares_low16 => "foreign-address-sharing-low-16-bits-with-an-own-address",
                 _ => "not-an-own-address",
             };
             out.add(
